@@ -40,6 +40,8 @@ class RetryWorld:
         self.outcomes = []
         self.raised = {}
         self.end = None
+        self.second = None
+        self.second_result = None
 
     def rec(self, *f):
         self.loop.activity += 1
@@ -52,6 +54,13 @@ class RetryWorld:
 
         @retry(wait=p['wait'], retries=p['retries'], timeout=p['timeout'], backoff_factor=p['bf'], retry_on=RETRY_ON[p['retry_on']])
         async def fn():
+            if w.second is not None:
+                # second call of the SAME decorated function (state kept by the decorator across calls would show here): fixed outcomes
+                j = len(w.second)
+                w.second.append(loop.now())
+                if j == 0 and p['retries'] >= 1:
+                    raise Listed('second call, first attempt')
+                return ('second', j)
             k = len(w.calls)
             w.calls.append((k, loop.now()))
             if k > p['retries'] + 2:
@@ -101,7 +110,14 @@ class RetryWorld:
         self.end = (loop.now(),) + r
         self.rec('end', r)
         await loop.hsleep(5.0)  # anything still scheduled (a retry after cancellation) would show up as an extra call
-        self.rec('final', len(self.calls))
+        n_first = len(self.calls)
+        self.second = []
+        try:
+            self.second_result = ('returned', await fn())
+        except BaseException as e:  # noqa: BLE001
+            self.second_result = ('raised', type(e).__name__)
+        self.rec('second', tuple(round(t, 4) for t in self.second), self.second_result)
+        self.rec('final', n_first)
 
     async def _wait(self, t):
         try:
@@ -113,7 +129,7 @@ class RetryWorld:
             return ('raised', self.raised.get(id(e)) or ('other', type(e).__name__))
 
     def result(self, verdict):
-        return dict(log=list(self.log), verdict=verdict, calls=list(self.calls), outcomes=list(self.outcomes), end=self.end, t0=getattr(self, 't0', 0.0),
+        return dict(log=list(self.log), verdict=verdict, calls=list(self.calls), outcomes=list(self.outcomes), end=self.end, t0=getattr(self, 't0', 0.0), second=self.second, second_result=self.second_result,
                     trace_key=(tuple(self.outcomes), self.end and self.end[1:]))
 
     def teardown(self):
@@ -211,6 +227,15 @@ def oracle(spec, res):
             else:
                 clause = 'wrong_wait_between_attempts'
         out.append(V(clause, f'p={p} outcomes={outcomes}: calls at {got_starts} -> {got_final}; reference allows {refs}', **tags))
+    # the second call of the same decorated function starts afresh: attempt 0 fails (if retries >= 1), then exactly `wait` later attempt 1 succeeds
+    sec = res.get('second')
+    if sec is not None:
+        want_n = 2 if (p['retries'] >= 1 and p['retry_on'] != 'empty') else 1
+        want_res = ('raised', 'Listed') if (p['retries'] >= 1 and p['retry_on'] == 'empty') else ('returned', ('second', want_n - 1))
+        if len(sec) != want_n or res['second_result'] != want_res:
+            out.append(V('second_call_of_the_same_function_differs', f'p={p}: second call made attempts at {sec} -> {res["second_result"]}, expected {want_n} attempts', **tags))
+        elif want_n == 2 and abs((sec[1] - sec[0]) - p['wait']) > 1e-4:
+            out.append(V('second_call_of_the_same_function_differs', f'p={p}: second call waited {sec[1] - sec[0]:.4f}s before its retry, expected wait*backoff**0 = {p["wait"]}', **tags))
     if any(r[2] == 'overrun-body-continued' for r in res['log']):
         out.append(V('overrunning_attempt_not_cut_off', f'outcomes {outcomes}', **tags))
     return out
